@@ -48,7 +48,7 @@ TCall ==
      /\ prem' = [prem EXCEPT ![p] = 0] /\ trec' = [trec EXCEPT ![p] = 0]
      /\ presp' = [presp EXCEPT ![p] = <<>>] /\ pres' = [pres EXCEPT ![p] = NoRes]
      /\ seen' = [seen EXCEPT ![p] = FALSE]
-  /\ UNCHANGED <<tpend, ploop, pwait, pin, pstat, LockV, RecV, ObjV, QueueV, DbV, GhostV>>
+  /\ UNCHANGED <<tpend, ploop, pwait, pclo, pin, pstat, LockV, RecV, ObjV, QueueV, DbV, GhostV>>
 
 THook ==
   /\ IsEvent("hook")
